@@ -404,7 +404,7 @@ pub fn run(cfg: &Cfg) -> i32 {
     }
     let _ = pool();
     // 96 structured sequences first, then seeded random ones
-    let n = cfg.tier.pick(96 + 250u64, 96 + 6_000);
+    let n = cfg.tier.pick(96 + 250u64, 96 + 2_500);
     let budget = cfg.tier.pick(Duration::from_secs(600), Duration::from_secs(3000));
     let ev = par_run(cfg, n, budget, |w, i| Some(run_case(w, i)));
     let mut required: Vec<String> = Vec::new();
